@@ -46,7 +46,7 @@ func cmdPriorityMatrix(args []string) error {
 		t := pool[i].text(int(seed())%3, rnd)
 		r, err := rules.NewNetworkRule(t, []int{1, 2, 3, -4}[i%4])
 		if err != nil {
-			return fmt.Errorf("pool rule %q rejected: %v", t, err)
+			return rejectedErr("pool rule %q rejected: %v", t, err)
 		}
 		if err = checkRendered(&pool[i], r); err != nil {
 			return fmt.Errorf("renderer self-check %q: %v", t, err)
